@@ -90,7 +90,10 @@ def canonicalize_metadata(
             value = value.tolist()
         if isinstance(value, dict | list | tuple):
             value = canonicalize_metadata(value)
-        elif isinstance(value, int | float | str) or value is None:
+        elif isinstance(value, str):
+            # keep strings apart from the numbers, booleans and None that print alike
+            value = repr(value)
+        elif isinstance(value, int | float) or value is None:
             value = str(value)
         elif hasattr(value, "ufl_signature"):
             value = value.ufl_signature
